@@ -92,6 +92,9 @@ impl Oracle for C05 {
         let l = best.len() as u32;
         let forked = w.refm.leaf_paths(&anchor).len() >= 2;
         let ingesting = w.is_ingesting();
+        if ingesting && matches!(_hist.last(), Some(Ev::Upgrade { .. })) {
+            out.count("states_after_an_upgrade_during_a_paused_ingestion");
+        }
         let mut cs: Vec<Option<u32>> = vec![None];
         for c in 0..=l + 1 {
             cs.push(Some(c));
@@ -279,6 +282,12 @@ pub fn run(tier: &str) -> i32 {
         let mut alpha = ledger_alphabet(n, &diffs, sp);
         alpha.bodies = bodies.clone();
         alpha.budgets = budgets.clone();
+        // "on any state": also the states after an upgrade, in particular one that lands
+        // between two slices of an ingestion (parts with sliced ingestion only)
+        if budgets.len() >= 3 {
+            alpha.upgrades = vec![0];
+            alpha.max_upgrades = 1;
+        }
         let m = ChainModel {
             cfg: WorldCfg::on(net, theta),
             alpha,
@@ -292,9 +301,10 @@ pub fn run(tier: &str) -> i32 {
                    "bodies": bodies, "max_non_default_bodies": sp, "ingestion_budgets": budgets}),
         );
     }
-    rep.rule = "LEDGER histories with sliced ingestion events (budgets 1, 2, unlimited, so states during ingestion are reached); in every state, for every book address and c in {none, 0..L+1}: get_balance vs the sum over all pages of get_utxos (page size 1000, and 1 and 2 through hook H3); error classes of both on ~45 malformed / foreign-network strings; query vs update variants".into();
+    rep.rule = "LEDGER histories with sliced ingestion events (budgets 1, 2, unlimited, so states during ingestion are reached) and, in the sliced parts, one upgrade at any boundary; in every state, for every book address and c in {none, 0..L+1}: get_balance vs the sum over all pages of get_utxos (page size 1000, and 1 and 2 through hook H3); error classes of both on ~45 malformed / foreign-network strings; query vs update variants".into();
     rep.bounds = json!({"tier": tier});
     rep.assume("differential oracle: no reference value is needed, the two endpoints are compared with each other");
+    rep.floor("states_after_an_upgrade_during_a_paused_ingestion", 10);
     rep.floor("comparisons_through_small_pages", 1000);
     rep.floor("comparisons_through_small_pages_with_min_confirmations", 100);
     rep.floor("comparisons_nonzero", 10_000);
